@@ -124,6 +124,12 @@ def track_step(t, op):
     tg = op[0]
     if tg == "add":
         return t.add_notes(content(op[1]), num(op[2]))
+    if tg == "add_strs":     # a plain list of octave-less note names, kept by the caller (must not be modified)
+        lst = list(op[1])
+        r = t.add_notes(lst, num(op[2]))
+        if lst != list(op[1]):
+            raise AssertionError("the caller's list was modified")
+        return r
     if tg == "add_raw":      # a plain Python list of Note objects, in the order given (not sorted as a NoteContainer would be)
         return t.add_notes([to_py(i) for i in op[1]], num(op[2]))
     if tg == "add_copy":     # NoteContainer(earlier_container): a chord built from another chord of the same track
